@@ -161,5 +161,6 @@ func verifC01(depth, width int, spine bool) {
 func VerifC01Skeleton1()      { verifC01(1, 2, false) }
 func VerifC01Skeleton2()      { verifC01(2, 2, false) }
 func VerifC01Skeleton2W3()    { verifC01(2, 3, false) }
+func VerifC01Skeleton2W4()    { verifC01(2, 4, false) }
 func VerifC01SkeletonSpine3() { verifC01(3, 2, true) }
 func VerifC01SkeletonSpine4() { verifC01(4, 2, true) }
